@@ -91,14 +91,7 @@ impl HintInstance {
     /// Returns true if backward compatibility mode has been activated
     /// by the hinter settings or the `prep` table.
     pub fn backward_compatibility(&self) -> bool {
-        // Set backward compatibility mode
-        if self.graphics.target.preserve_linear_metrics() {
-            true
-        } else if self.graphics.target.is_smooth() {
-            (self.graphics.instruct_control & 0x4) == 0
-        } else {
-            false
-        }
+        self.graphics.backward_compatibility()
     }
 
     pub fn hint(
